@@ -63,6 +63,7 @@ func (m *modInfo) blob() map[string]any {
 }
 
 type driver struct {
+	broken string     // a workload class that was never exercised
 	fam    []*modInfo // same-shape modules returning a module-specific constant
 	deaths map[string]bool
 	c      *core.Ctx
@@ -147,6 +148,10 @@ func run(c *core.Ctx) int {
 		d.phaseCrash()
 	}
 	c.Extra("phase_crash_s", time.Since(c.Start).Seconds())
+	if want("fault") {
+		d.phaseFault()
+	}
+	c.Extra("phase_fault_s", time.Since(c.Start).Seconds())
 	if want("trunc") {
 		d.phaseTrunc()
 	}
@@ -179,6 +184,9 @@ func run(c *core.Ctx) int {
 			c.Inconclusive("hook-never-reached:" + p)
 			broken = "crash point " + p + " was never reached"
 		}
+	}
+	if broken == "" {
+		broken = d.broken
 	}
 	if broken != "" {
 		return finishBroken(c, d, broken)
@@ -319,6 +327,7 @@ type useExpect struct {
 	mod    *modInfo
 	hasBad bool            // a damaged entry was planted under the final name
 	others map[string]bool // keys of other modules whose entries legitimately share the directory
+	noErr  bool            // nothing damaged was planted and nobody died: a later CompileModule error is a violation
 	info   bool            // information only (corruption)
 }
 
@@ -379,6 +388,14 @@ func (d *driver) decideUse(e useExpect, job useJob, r core.CaseResult) string {
 			outcome = "cache-error"
 		case rr.CompileErr != "":
 			outcome = "error"
+			if e.noErr {
+				cls := errClass(rr.CompileErr)
+				if strings.HasPrefix(cls, "entry-rejected") {
+					cls = "entry-rejected" // the text depends on where the entry ends
+				}
+				c.Violate(fmt.Sprintf("%s:later-process-compile-error:%s:%s", e.kind, e.param, cls),
+					fmt.Sprintf("module %s, %s %s round %d: CompileModule failed: %s", m.Name, e.kind, job.Tag, ri, core.Trunc(rr.CompileErr, 300)), wit(map[string]any{"files": rr.Files, "round": ri}))
+			}
 			c.Distinct(e.kind+"_error_texts", core.Trunc(stripNumbers(rr.CompileErr), 100))
 		case !rr.TraceOK:
 			outcome = "behaviour-differs"
@@ -541,21 +558,11 @@ func (d *driver) phaseCrash() {
 		Exhaustive bool   `json:"exhaustive"`
 	}
 	var kinfos []kinfo
-	fullIdx := int(uint64(c.Seed) % uint64(len(d.mods)))
 	for mi, m := range d.mods {
 		for _, p := range hookPoints {
 			ccs = append(ccs, &crashCase{m: m, point: p})
 		}
-		full := !c.Quick() || mi == fullIdx || m.Name == "const42"
-		ks, ex := d.ksFor(m, full, mi)
-		if c.Quick() && full && len(m.Entry) <= 400 {
-			// quick tier: one or two small modules get every k
-			ks = ks[:0]
-			for k := 0; k < len(m.Entry); k++ {
-				ks = append(ks, k)
-			}
-			ex = true
-		}
+		ks, ex := d.copyKs(mi, m)
 		for _, k := range ks {
 			ccs = append(ccs, &crashCase{m: m, point: copyPoint, k: k})
 		}
